@@ -338,7 +338,13 @@ func (x *Exec) instantiate(st *State) []*Term {
 	var out []*Term
 	x.specMode++
 	defer func() { x.specMode-- }()
-	for round := 0; round < 2; round++ {
+	rounds := 2
+	if x.cur != nil {
+		if v, ok := x.cur.opts["inst-rounds"]; ok {
+			fmt.Sscanf(v, "%d", &rounds)
+		}
+	}
+	for round := 0; round < rounds; round++ {
 		apps := append([]appRec{}, st.apps...)
 		all := append(append([]*schema{}, x.schemas...), st.schemas...)
 		for _, sc := range all {
